@@ -1,19 +1,22 @@
 //@ unit dupattr_ig_step_w
-//@ props C02 C06
+//@ props C02 C06 C03
 //@ kind W
 //@ def quick NATT=4
 //@ def thorough NATT=6
 //@ cbmc all --unwind 8 --unwinding-assertions
 //@ entry h_dupattr_step
 //@ note fragment of IGXMLScanner::buildAttList: ONE iteration of the provided-attribute loop, from the namespace-level duplicate check to `retCount++`, verified as a step function under the invariant "the hash registry holds exactly the (local part, uri) keys of toFill[0..retCount)"; complete for lists of <= NATT entries in both modes
-//@ note names are ids (two names are equal iff the ids are equal): suffPtr = local part, namePtr = QName, prefPtr = prefix are distinct inputs; XMLAttr creation/set, the registry, psviAttr and emitError are trusted stubs
+//@ note names are ids (two names are equal iff the ids are equal): suffPtr = local part, namePtr = QName, prefPtr = prefix are distinct inputs; XMLAttr creation/set/setSpecified (model of XMLAttr: ctor sets the specified flag, set() leaves it), the registry, psviAttr and emitError are trusted stubs
 #define VERIF_DEFINE_GHOSTS
 #include "verif_prelude.h"
 //@ include dupattr_common.inc
 enum { Grammar_DTDGrammarType = 1, Grammar_SchemaGrammarType = 2 };
 int fGrammarType;
 static bool ST_equalsId(int a, int b) { return a == b; }
-static void AT_store(XMLSize_t idx, unsigned int uri, int name) { ATTS.a[idx].uri = uri; ATTS.a[idx].name = name; }
+/* XMLAttr model: the constructor sets fSpecified from its argument, XMLAttr::set() leaves it alone (src/xercesc/framework/XMLAttr.cpp) */
+static XMLAttr* AT_new(XMLSize_t idx, unsigned int uri, int name, bool specified) { ATTS.a[idx].uri = uri; ATTS.a[idx].name = name; ATTS.a[idx].specified = specified; return &ATTS.a[idx]; }
+static void AT_set(XMLAttr *a, unsigned int uri, int name) { a->uri = uri; a->name = name; }
+static void AT_setSpecified(XMLAttr *a, bool v) { a->specified = v; }
 
 /*@extract src/xercesc/internal/IGXMLScanner2.cpp IGXMLScanner::buildAttList
 as IG_dupstep
@@ -28,8 +31,11 @@ sub XMLString::equals\((\w+), curAttr->getName\(\)\) => ST_equalsId(\1, curAttr-
 sub curAttr->getURIId\(\) => curAttr->uri
 sub emitError\s*\(\s*XMLErrs::AttrAlreadyUsedInSTag\s*,[^;]*\); => SC_dupError();
 sub fAttrDupChkRegistry->containsKey\(\(void\*\)(\w+), (\w+)\) => REG_contains(\1, \2)
-sub curAttr = new \(fMemoryManager\) XMLAttr\s*\(\s*(\w+)\s*, (\w+)[^;]*\);\s*toFill\.addElement\(curAttr\); => AT_store(retCount, \1, \2);
-sub curAttr = toFill\.elementAt\(retCount\);\s*curAttr->set\s*\(\s*(\w+)\s*, (\w+)[^;]*\);\s*curAttr->setSpecified\(true\); => AT_store(retCount, \1, \2);
+sub new \(fMemoryManager\) XMLAttr\s*\(\s*(\w+)\s*,\s*(\w+)\s*,\s*(\w+)\s*,\s*([^,]+),\s*(\w+)\s*,\s*(\w+)\s*,\s*fMemoryManager\s*\) => AT_new(retCount, \1, \2, \6)
+sub* toFill\.addElement\(curAttr\); =>
+sub toFill\.elementAt\(retCount\) => AL_elementAt(retCount)
+sub curAttr->set\s*\(\s*(\w+)\s*, (\w+)[^;]*\); => AT_set(curAttr, \1, \2);
+sub* curAttr->setSpecified\( => AT_setSpecified(curAttr, 
 sub fAttrDupChkRegistry->put\(\(void\*\)(\w+), (\w+), curAttr\) => REG_put(\1, \2)
 sub if\(psviAttr\)\s*psviAttr->setValue\(curAttr->getValue\(\)\); =>
 @*/
@@ -52,5 +58,6 @@ void h_dupattr_step(void)
   VERIF_CANARY("after step");
   __CPROVER_assert((DUP_ERRORS >= 1) == (dup != 0), "C02/C06: AttrAlreadyUsedInSTag is reported iff an earlier attribute has the same expanded name (pairwise and hashed mode)");
   __CPROVER_assert(cnt == n + 1 && ATTS.a[n].uri == uri && ATTS.a[n].name == local, "C06: the attribute is stored under its local part and namespace id");
+  __CPROVER_assert(ATTS.a[n].specified, "C03: an attribute written in the start tag is reported as specified, also when its XMLAttr slot is a reused one");
   if (USE_HASH) __CPROVER_assert(REG_contains(local, uri), "C02: invariant re-established: the registry is keyed by (local part, uri) of every stored attribute");
 }
